@@ -181,6 +181,10 @@ func main() {
 		runC06(w, *seed, *maxLen, *n)
 		return
 	}
+	if *mode == "c01" {
+		runC01(w, *seed, *n)
+		return
+	}
 	if *mode == "c02" {
 		runC02(w, *seed, *n, *depth, *stride)
 		return
